@@ -664,6 +664,10 @@ def dump_one(f: TextIO, data: IOData):
         _dump_integer_arrays("Integer atomic weights", masses.round(), f)
         _dump_real_arrays("Real atomic weights", masses, f)
 
+    if data.atfrozen is not None:
+        # -2 marks a frozen atom, -1 a free one.
+        _dump_integer_arrays("MicOpt", np.where(data.atfrozen, -2, -1), f)
+
     # write molecular orbital basis set
     if data.obasis is not None:
         # number of primitives per shell
